@@ -39,6 +39,15 @@ Proof.
   unfold pspecE, pcatch. intros H Hh. destruct (m d p) as [[a|e] p']; auto.
   specialize (Hh e H). destruct (c e); auto. apply Hh.
 Qed.
+Lemma pspecE_catch' {A} (E E' : exc -> Prop) (m : P A) (c : exc -> bool) (h : exc -> P A) d p (Q Q0 : A -> Z -> Prop) :
+  pspecE E' m d p Q0 ->
+  (forall e, E' e -> if c e then forall p', pspecE E (h e) d p' Q else E e) ->
+  (forall a p', Q0 a p' -> Q a p') ->
+  pspecE E (pcatch m c h) d p Q.
+Proof.
+  unfold pspecE, pcatch. intros H Hh HQ. destruct (m d p) as [[a|e] p']; auto.
+  specialize (Hh e H). destruct (c e); auto. apply Hh.
+Qed.
 (* except (X, Y): raise error(...) *)
 Lemma pspec_catchM {A} (m : P A) (c : exc -> bool) d p Q :
   pspecE (fun e => e = EMutagen \/ c e = true) m d p Q ->
@@ -208,3 +217,40 @@ Ltac pbind := apply pspecE_bind.
 Ltac pread := apply pspecE_read; [unfold c04_two63 in *; try lia|cbv beta].
 Ltac pretn := apply pspecE_ret; cbv beta.
 Ltac praiseM := apply pspecE_raise; first [assumption | reflexivity | (left; reflexivity) | (left; assumption)].
+
+(* ---- pure (non file) computations ---- *)
+Definition rspec {A} (r : result A) (Q : A -> Prop) : Prop := match r with Ok a => Q a | Raise e => e = EMutagen end.
+Lemma rspec_bind {A B} (m : result A) (k : A -> result B) Q :
+  rspec m (fun a => rspec (k a) Q) -> rspec (rbind m k) Q.
+Proof. unfold rspec, rbind. destruct m; auto. Qed.
+Lemma rspec_post {A} (r : result A) (Q Q' : A -> Prop) : rspec r Q -> (forall a, Q a -> Q' a) -> rspec r Q'.
+Proof. unfold rspec. destruct r; auto. Qed.
+Lemma rspec_ok {A} (a : A) (Q : A -> Prop) : Q a -> rspec (Ok a) Q. Proof. intro H; exact H. Qed.
+Lemma rspec_raiseM {A} (Q : A -> Prop) : rspec (Raise EMutagen) Q. Proof. reflexivity. Qed.
+Lemma pspec_lift_rspec {A} (r : result A) d p (Q : A -> Z -> Prop) :
+  rspec r (fun a => Q a p) -> pspec (plift r) d p Q.
+Proof. unfold rspec, pspecE, plift. destruct r; auto. Qed.
+Lemma rspec_total {A} (r : result A) Q : rspec r Q -> total r.
+Proof. unfold rspec, total. destruct r; auto. Qed.
+Ltac rbind := apply rspec_bind.
+
+(* one symbolic step of a monadic program; reads leave `r := rd n p d` and its length equation in the context *)
+Ltac pstep :=
+  lazymatch goal with
+  | |- pspecE _ (pbind _ _) _ _ _ => apply pspecE_bind
+  | |- pspecE _ (p_read ?n) ?d ?p _ =>
+      apply pspecE_read; [unfold c04_two63 in *; lia |
+        cbv beta; let H := fresh "Hr" in let r := fresh "r" in
+        (pose proof (rd_len n p d ltac:(lia) ltac:(lia)) as H); set (r := rd n p d) in *]
+  | |- pspecE _ p_tell _ _ _ => apply pspecE_tell; cbv beta
+  | |- pspecE _ (pret _) _ _ _ => apply pspecE_ret; cbv beta
+  | |- pspecE _ (p_seek _ 0) _ _ _ => apply pspecE_seek_abs; [unfold c04_two63 in *; lia | cbv beta]
+  | |- pspecE _ (p_seek _ 1) _ _ _ =>
+      apply pspecE_seek_rel; [unfold c04_two63 in *; lia | unfold c04_two63 in *; lia | lia | cbv beta]
+  | |- pspecE _ (p_seek _ 2) _ _ _ =>
+      apply pspecE_seek_end; [unfold c04_two63 in *; lia | unfold c04_two63 in *; lia | cbv beta]
+  | |- pspecE _ (praise EMutagen) _ _ _ => praiseM
+  | |- pspecE _ (if negb ?b then _ else _) _ _ _ => destruct b eqn:?; cbn [negb]
+  | |- pspecE _ (if ?b then _ else _) _ _ _ => destruct b eqn:?
+  end.
+Ltac psteps := repeat pstep.
